@@ -26,6 +26,8 @@ def gen(rng, tier, n_quick=60, n_thorough=1500):
     for i in range(4 if tier == "quick" else 40):
         # a strut pinned at both ends that carries no load of its own: with -w it has its weight to carry like every other bar
         cases.append(core.case_from_struct(G.gen_bracket(rng), Weight=(i % 4 != 3), Solve=True, Assemble=True, Error="1e-6", ViaPre=(i % 2 == 1)))
+    for i in range(2 if tier == "quick" else 20):
+        cases.append(core.case_from_struct(G.gen_pin_first_joint(rng), Weight=False, Solve=True, Assemble=True, Error="1e-7", ViaPre=False))
     for i in range(3 if tier == "quick" else 30):
         cases.append(core.case_from_struct(G.gen_slider_joint(rng), Weight=False, Solve=True, Assemble=True, Error="1e-6", ViaPre=(i % 3 == 2)))
     for i in range(n):
